@@ -31,10 +31,12 @@ const (
 	KInt32
 	KUint
 	KInt64
+	KInt8
+	KInt16
 )
 
 func (k Kind) String() string {
-	return [...]string{"untyped", "int", "uint8", "uint16", "uint32", "uint64", "int32", "uint", "int64"}[k]
+	return [...]string{"untyped", "int", "uint8", "uint16", "uint32", "uint64", "int32", "uint", "int64", "int8", "int16"}[k]
 }
 
 func kindOfName(name string) (Kind, bool) {
@@ -55,15 +57,19 @@ func kindOfName(name string) (Kind, bool) {
 		return KUint, true
 	case "int64":
 		return KInt64, true
+	case "int8":
+		return KInt8, true
+	case "int16":
+		return KInt16, true
 	}
 	return 0, false
 }
 
 func (k Kind) bits() uint {
 	switch k {
-	case KUint8:
+	case KUint8, KInt8:
 		return 8
-	case KUint16:
+	case KUint16, KInt16:
 		return 16
 	case KUint32, KInt32:
 		return 32
@@ -71,7 +77,9 @@ func (k Kind) bits() uint {
 	return 64
 }
 
-func (k Kind) signed() bool { return k == KInt || k == KInt32 || k == KInt64 || k == KUntyped }
+func (k Kind) signed() bool {
+	return k == KInt || k == KInt32 || k == KInt64 || k == KUntyped || k == KInt8 || k == KInt16
+}
 
 func (k Kind) mask() uint64 {
 	if k.bits() == 64 {
@@ -227,6 +235,10 @@ func norm(v uint64, k Kind) uint64 {
 		return v & 0xffffffff
 	case KInt32:
 		return uint64(int64(int32(uint32(v))))
+	case KInt8:
+		return uint64(int64(int8(uint8(v))))
+	case KInt16:
+		return uint64(int64(int16(uint16(v))))
 	}
 	return v
 }
@@ -253,6 +265,10 @@ func (ev *Evaluator) fits(c Int, k Kind, what string) {
 			ok = c.V <= 0xffffffff
 		case KInt32:
 			ok = c.V <= 1<<31-1
+		case KInt8:
+			ok = c.V <= 1<<7-1
+		case KInt16:
+			ok = c.V <= 1<<15-1
 		case KInt, KInt64:
 			ok = c.V <= 1<<63-1
 		default:
@@ -270,6 +286,10 @@ func (ev *Evaluator) fits(c Int, k Kind, what string) {
 		ok = symx.And(sv >= 0, sv <= 0xffffffff)
 	case KInt32:
 		ok = symx.And(sv >= -1<<31, sv <= 1<<31-1)
+	case KInt8:
+		ok = symx.And(sv >= -1<<7, sv <= 1<<7-1)
+	case KInt16:
+		ok = symx.And(sv >= -1<<15, sv <= 1<<15-1)
 	case KUint64, KUint:
 		ok = sv >= 0 || c.K == KUint64 || c.K == KUint
 	default:
@@ -702,6 +722,8 @@ func (ev *Evaluator) zeroOf(t ast.Expr) Val {
 		return a
 	case *ast.FuncType:
 		return (*Func)(nil)
+	case *ast.InterfaceType:
+		return Nil{}
 	case *ast.StarExpr:
 		return Ptr{}
 	}
@@ -1392,6 +1414,31 @@ func (ev *Evaluator) Exec(env *Env, s ast.Stmt) (ctl, []Val) {
 				if name != "_" {
 					env.Define(name, defaultType(vals[i]))
 				}
+			}
+		case s.Tok == token.ASSIGN && len(s.Rhs) == 1 && len(s.Lhs) > 1:
+			// x, y = f(): the results of one call
+			ce, isCall := s.Rhs[0].(*ast.CallExpr)
+			if !isCall {
+				ev.fail("unsupported multi-value assignment")
+			}
+			sets := make([]func(Val), len(s.Lhs))
+			for i, l := range s.Lhs {
+				_, sets[i] = ev.lvalue(env, l)
+			}
+			fv, ok := ev.Eval(env, ce.Fun).(*Func)
+			if !ok || fv == nil {
+				ev.fail("unsupported multi-value call of a non-function")
+			}
+			args := make([]Val, len(ce.Args))
+			for i, a := range ce.Args {
+				args[i] = ev.Eval(env, a)
+			}
+			res := ev.CallFunc(fv, args)
+			if len(res) != len(sets) {
+				ev.fail("compile error: assignment mismatch: %d variables but the call returns %d values", len(sets), len(res))
+			}
+			for i := range sets {
+				sets[i](res[i])
 			}
 		case s.Tok == token.ASSIGN:
 			if len(s.Lhs) != len(s.Rhs) {
